@@ -30,6 +30,7 @@
 #include "snoopy.h"
 
 #include "inputdatastorage.h"
+#include <limits.h>
 #include <stdio.h>
 
 
@@ -54,5 +55,6 @@ int snoopy_datasource_filename (char * const resultBuf, size_t resultBufSize, __
     /* Get argument data of execv/e() call */
     snoopy_inputdatastorage = snoopy_inputdatastorage_get();
 
-    return snprintf(resultBuf, resultBufSize, "%s", snoopy_inputdatastorage->filename);
+    // Precision: never look (or count) further than what fits - a path of 2 GiB or more makes "%s" fail with EOVERFLOW
+    return snprintf(resultBuf, resultBufSize, "%.*s", (resultBufSize > (size_t) INT_MAX) ? INT_MAX : (int) resultBufSize, snoopy_inputdatastorage->filename);
 }
